@@ -456,6 +456,9 @@ class Interp:
             if full in registry.EXTERNALS:
                 return registry.EXTERNALS[full]
             return self.dotted_value(full)
+        if isinstance(obj, TypeOf) and attr == "__name__":
+            v_ = obj.v
+            return SV(TName, core.uf(f"{v_.ty.name}.__class__.__name__", v_.ty.sort(), TName.sort())(v_.t))
         if isinstance(obj, FuncRef):
             if attr == "__code__":
                 return Record("code", {"co_name": obj.co_name or obj.dotted.rsplit(".", 1)[1], "_func": obj})
@@ -487,6 +490,8 @@ class Interp:
         if isinstance(obj, ObjUnderConstruction):
             if attr in obj.fields:
                 return obj.fields[attr]
+            if (obj.sort, attr) in registry.METHODS:
+                return BoundMethod(self.freeze(obj, st), attr)
             raise Unsupported(f"attribute {attr} read before it is set on the object under construction")
         if isinstance(obj, Closure) and attr == "__code__":
             return Record("code", {"co_name": obj.name, "_func": obj})
@@ -502,6 +507,24 @@ class Interp:
         if isinstance(obj, PyBuiltin) and obj.name == "object" and attr == "__setattr__":
             return PyBuiltin("object.__setattr__")
         raise Unsupported(f"attribute {attr} on {type(obj).__name__}")
+
+    def freeze(self, obj, st):
+        """the object under construction as a term of its sort: the fields assigned so far have their values, everything else
+        (class attributes, fields not yet assigned) is unconstrained; the same term while no further field is assigned"""
+        key = tuple((k_, id(v_)) for k_, v_ in obj.fields.items())
+        if obj.frozen is not None and obj.frozen[0] == key:
+            return obj.frozen[1]
+        m = registry.CLASS_MODELS[obj.sort]
+        new = core.fresh(core.TU(obj.sort), "self")
+        for f_, v_ in obj.fields.items():
+            if f_ in m.fields:
+                ft = registry.field_term(obj.sort, f_, new.t)
+                try:
+                    st.pc.append(ft.t == lift(v_, ft.ty).t)
+                except core.LiftError:
+                    pass
+        obj.frozen = (key, new)
+        return new
 
     def getattr_sv(self, obj: SV, attr, st):
         k = obj.ty.kind
@@ -2155,10 +2178,12 @@ class IterCursor:
 class ObjUnderConstruction:
     def __init__(self, sort):
         self.sort, self.fields = sort, {}
+        self.frozen = None
 
     def copy(self):
         o = ObjUnderConstruction(self.sort)
         o.fields = dict(self.fields)
+        o.frozen = self.frozen
         return o
 
     def __repr__(self):
